@@ -11,6 +11,9 @@ pub mod c04;
 pub mod c05;
 pub mod c06;
 pub mod c07;
+pub mod c12;
+pub mod c13;
+pub mod c14;
 pub mod c18;
 
 /// Budget for `parse`: far above the C18 bound, so that only a runaway trips it.
@@ -36,6 +39,9 @@ pub fn run(ctx: &mut Ctx) -> bool {
         "C05" => c05::run(ctx),
         "C06" => c06::run(ctx),
         "C07" => c07::run(ctx),
+        "C12" => c12::run(ctx),
+        "C13" => c13::run(ctx),
+        "C14" => c14::run(ctx),
         "C18" => c18::run(ctx),
         _ => return false,
     }
